@@ -31,6 +31,7 @@ type spec struct {
 	// soft time budget per tier for the workers (they stop cleanly, exhaustive:false)
 	BudgetQuick, BudgetThorough time.Duration
 	Workers                     int
+	Procs                       int // GOMAXPROCS of each worker (default 2; 1 is fastest under the cooperative scheduler)
 	Design                      string
 }
 
@@ -243,7 +244,11 @@ func main() {
 				defer cancel()
 				// ulimit -v keeps a runaway worker from exhausting the sandbox
 				c := exec.CommandContext(ctx, "sh", "-c", "ulimit -v 25165824; exec \"$0\" \"$@\"", bin, "-par", "1", "-budget", budget.String(), "-out", outf, "-units", unitsFile, id, tier)
-				c.Env = append(os.Environ(), "GOMAXPROCS=2")
+				gmp := "2"
+				if sp.Procs > 0 {
+					gmp = strconv.Itoa(sp.Procs)
+				}
+				c.Env = append(os.Environ(), "GOMAXPROCS="+gmp)
 				var eb bytes.Buffer
 				c.Stderr = &eb
 				c.Stdout = &eb
@@ -440,6 +445,25 @@ func main() {
 		id, tier, total.Evaluations, total.States, total.Transitions, total.Nontrivial, total.Outcomes, len(total.Units), total.Exhaustive && len(total.Caps) == 0, time.Since(t0).Seconds())
 	for _, c := range total.Caps {
 		fmt.Println("cap:", c)
+	}
+	if os.Getenv("VERIF_VERBOSE") != "" {
+		type uw struct {
+			n string
+			w float64
+		}
+		var l []uw
+		for n, w := range total.UnitWall {
+			l = append(l, uw{n, w})
+		}
+		sort.Slice(l, func(i, j int) bool { return l[i].w > l[j].w })
+		for i, x := range l {
+			if i < 12 {
+				fmt.Printf("  unit %-50s %.1fs\n", x.n, x.w)
+			}
+		}
+		for k, v := range total.Bounds {
+			fmt.Printf("  bound %s: %s\n", k, v)
+		}
 	}
 	for i, n := range knownSeen {
 		fmt.Printf("KNOWN-FINDING: property=%s %s [%d failing cases attributed]\n", id, findings[i].What, n)
